@@ -272,10 +272,24 @@ def fuzz(chk, seed, runs_per_job, jobs):
     for a in arts[:20]:
         data = open(a, "rb").read()
         # re-run the artifact alone to get the report (child reports are lost with -jobs)
-        q = subprocess.run([exe, a], cwd=work, env=env, stdout=subprocess.PIPE, stderr=subprocess.STDOUT, text=True, errors="replace", timeout=120)
+        # a libFuzzer timeout (20 s wall clock in one of 16 busy jobs) is no verdict: the input is re-run alone with a generous
+        # watchdog; only an input that does not finish there either (twice) is reported as a hang
+        is_to = "timeout" in os.path.basename(a)
+        hung = 0
+        q = None
+        for _try in range(2 if is_to else 1):
+            try:
+                q = subprocess.run([exe, a], cwd=work, env=env, stdout=subprocess.PIPE, stderr=subprocess.STDOUT, text=True, errors="replace", timeout=600)
+                break
+            except subprocess.TimeoutExpired:
+                hung += 1
+        if q is None:
+            chk.report("fuzz|hang", "libFuzzer input does not finish within 600 s (twice): %s" % data[:200].hex(), dict(fuzz_input_hex=data.hex()))
+            continue
         kind, func = vc.classify_report(q.stdout)
-        if "timeout" in os.path.basename(a):
-            kind = "hang"
+        if is_to and q.returncode == 0:
+            chk.count("fuzz.slow_inputs_finished_alone")
+            continue
         cat = unjudged_crash(kind)
         if cat:
             chk.count("fuzz.unjudged." + cat)
